@@ -5,7 +5,7 @@ Line-protocol driver for the C12 `Exec` model (`lake build c12drv`). Several mac
 side (one per simulated validator), each with its own `Env`.
 
 Requests (numbers decimal, rounds may be negative, ids `nil` or decimal):
-  new  <mid> <node> <height> <total> <rot> <validMod> <validRem> <valBase> <valStep> <propMul> <powers,> <proposers,> <altTotal> <altPowers,>
+  new  <mid> <node> <height> <total> <rot> <validMod> <validRem> <valBase> <valStep> <propMul> <powers,> <proposers,> <altTotal> <altPowers,> <shipped 0|1>
   sync <mid> <h> <r> <sender> <validRound> <value> (<h> <r> <sender> <id>)*   -- ProcessSync
   wal  <mid> start <h> | prop … | pv … | pc … | to …                          -- ProcessWAL
   start <mid> <round>
@@ -29,15 +29,22 @@ abbrev DState := List Slot
 def parseList (s : String) : Option (List Nat) :=
   if s == "-" then some [] else (s.splitOn ",").mapM (fun w => w.toNat?)
 
+/-- address the harness uses for `consensus/sync.SyncProtocolPrecommitSender` -/
+def pseudoSender : Nat := 1048576
+
 /-- Validator set of height `h`: `powers`/`total`, or — for odd heights when `altPowers` is not
-empty — `altPowers`/`altTotal` (validator sets that change from height to height). -/
+empty — `altPowers`/`altTotal` (validator sets that change from height to height). With `shipped`
+the shape of the only `Validators` in the repository (`consensus/mock.go`): power 1 for EVERY
+address, power `total` for the sync pseudo-sender. -/
 def mkEnv (total rot vMod vRem vBase vStep pMul : Nat) (powers tbl : List Nat) (altTotal : Nat)
-    (altPowers : List Nat) : Env :=
+    (altPowers : List Nat) (shipped : Bool) : Env :=
   let useAlt (h : Nat) : Bool := !altPowers.isEmpty && h % 2 == 1
   { totalPower := fun h => if useAlt h then altTotal else total,
     power := fun h a =>
-      let ps := if useAlt h then altPowers else powers
-      if a < ps.length then ps.getD ((a + rot * h) % ps.length) 0 else 0,
+      if shipped then (if a = pseudoSender then total else 1)
+      else
+        let ps := if useAlt h then altPowers else powers
+        if a < ps.length then ps.getD ((a + rot * h) % ps.length) 0 else 0,
     proposer := fun h r =>
       if tbl.isEmpty then 0
       else tbl.getD (((Int.ofNat (h * pMul) + r) % (Int.ofNat tbl.length)).toNat) 0,
@@ -169,15 +176,15 @@ def parseVotes : List String → Option (List Vote)
 
 def step (st : DState) (line : String) : DState × String :=
   match words line with
-  | ["new", mid, node, h, total, rot, vMod, vRem, vBase, vStep, pMul, powers, tbl, altTotal, altPowers] =>
+  | ["new", mid, node, h, total, rot, vMod, vRem, vBase, vStep, pMul, powers, tbl, altTotal, altPowers, shipped] =>
     match mid.toNat?, node.toNat?, h.toNat?, total.toNat?, rot.toNat?, vMod.toNat?, vRem.toNat?,
           vBase.toNat?, vStep.toNat?, pMul.toNat?, parseList powers, parseList tbl, altTotal.toNat?,
-          parseList altPowers with
+          parseList altPowers, shipped.toNat? with
     | some mid, some node, some h, some total, some rot, some vMod, some vRem, some vBase,
-      some vStep, some pMul, some powers, some tbl, some altTotal, some altPowers =>
-      let env := mkEnv total rot vMod vRem vBase vStep pMul powers tbl altTotal altPowers
+      some vStep, some pMul, some powers, some tbl, some altTotal, some altPowers, some shipped =>
+      let env := mkEnv total rot vMod vRem vBase vStep pMul powers tbl altTotal altPowers (shipped != 0)
       (putSlot st ⟨mid, env, Machine.new env node h⟩, "ok")
-    | _, _, _, _, _, _, _, _, _, _, _, _, _, _ => (st, "bad-op")
+    | _, _, _, _, _, _, _, _, _, _, _, _, _, _, _ => (st, "bad-op")
   | ["start", mid, r] =>
     match r.toInt? with
     | some r => runInput st mid (.start r)
